@@ -338,6 +338,69 @@ namespace c10
     if(lvl == 0) c.trivial = true;
   }
 
+  // barycentres of the entities a part refers to (per dimension, in part order)
+  inline void part_barycentres(const ShapeTab& t, const MeshSnap& m, const PartSnap& p, std::vector<double> (&out)[4])
+  {
+    const int dim = t.dim;
+    for(int d = 0; d <= dim; ++d)
+    {
+      out[d].clear();
+      for(Idx x : p.trg[d])
+      {
+        double b[3] = {0, 0, 0};
+        if(x < m.n[d])
+        {
+          Idx tmp[1]; const Idx* v = m.ent(t, d, x, tmp); const int nv = d == 0 ? 1 : t.nv(d);
+          for(int k = 0; k < nv; ++k) for(int a = 0; a < dim; ++a) b[a] += m.vtx[std::size_t(v[k]) * std::size_t(dim) + std::size_t(a)] / double(nv);
+        }
+        else b[0] = b[1] = b[2] = 1e300; // out-of-range target
+        for(int a = 0; a < dim; ++a) out[d].push_back(b[a]);
+      }
+    }
+  }
+
+  // applies a mesh permutation strategy to the node; monitors: the permuted mesh is a consistent conforming mesh with the
+  // same counts and volume, and every entity of every part / halo / patch is still the same geometric entity
+  template<typename Shape_>
+  bool permute_node(vh::Ctx& c, typename Ty<Shape_>::Node& node, Geometry::PermutationStrategy strategy, const std::string& op)
+  {
+    const ShapeTab t = ShapeSel<Shape_>::tab(); const int dim = t.dim;
+    MeshSnap before; snap_node<Shape_>(node, before, true);
+    { MeshInfo bi; Rep rb(c, "before permutation"); check_mesh(rb, t, before, op, bi); if(c.nviol > 0) return false; }
+    std::vector<std::vector<double>> bary_before;
+    for(const PartSnap& p : before.parts) { std::vector<double> b[4]; if(p.present) part_barycentres(t, before, p, b); for(int d = 0; d <= dim; ++d) bary_before.push_back(b[d]); }
+    node.create_permutation(strategy);
+    c.event();
+    MeshSnap after; snap_node<Shape_>(node, after, true);
+    Rep r(c, "after create_permutation");
+    MeshInfo ai; check_mesh(r, t, after, op, ai); c.event();
+    for(int d = 0; d <= dim; ++d) if(after.n[d] != before.n[d])
+      r.bad(op, "entity-count-changed", vh::J().kv("dim", d).kv("before", (unsigned long)before.n[d]).kv("after", (unsigned long)after.n[d]));
+    if(before.have_vol && after.have_vol && !(std::fabs(double(before.vol - after.vol)) <= 1e-9 * std::fabs(double(before.volabs)) + 1e-300))
+      r.bad(op, "volume-changed", vh::J().kv("before", double(before.vol)).kv("after", double(after.vol)));
+    if(after.parts.size() != before.parts.size()) { r.bad(op, "part-set-changed", vh::J()); return false; }
+    std::size_t bi = 0;
+    for(std::size_t ip = 0; ip < after.parts.size(); ++ip)
+    {
+      const PartSnap& pa = after.parts[ip]; const PartSnap& pb = before.parts[ip];
+      std::vector<double> b[4]; if(pa.present) part_barycentres(t, after, pa, b);
+      for(int d = 0; d <= dim; ++d, ++bi)
+      {
+        c.event();
+        if(pa.key() != pb.key() || pa.trg[d].size() != pb.trg[d].size()) { r.bad(op, "part-size-changed", vh::J().kv("part", pa.key()).kv("dim", d)); continue; }
+        const std::vector<double>& x = bary_before[bi];
+        for(std::size_t i = 0; i < x.size() && i < b[d].size(); ++i)
+          if(!(std::fabs(x[i] - b[d][i]) <= 1e-12 * (1.0 + std::fabs(x[i]))))
+          {
+            r.bad(op, "part-entity-moved", vh::J().kv("part", pa.key()).kv("dim", d).kv("entity", (unsigned long)(i / std::size_t(dim)))
+              .kv("barycentre_before", x[i]).kv("barycentre_after", b[d][i]));
+            break;
+          }
+      }
+    }
+    return c.nviol == 0;
+  }
+
   // bare meshes through StandardRefinery (no node, no parts)
   template<typename Shape_>
   void refine_chain_bare(vh::Ctx& c, std::unique_ptr<typename Ty<Shape_>::Mesh> mesh, Idx cap)
@@ -471,6 +534,21 @@ namespace c10
     std::unique_ptr<typename Ty<Shape_>::Node> node = Ty<Shape_>::Node::make_unique(std::move(mesh));
     MeshSnap s0; snap_mesh<Shape_>(*node->get_mesh(), s0, false);
     attach_random_parts<Shape_>(c, *node, s0);
+    // mesh permutation of the node (renumbers the mesh AND the target sets of all attached parts, halos and patches):
+    // every part entity must still be the same geometric entity afterwards, and the permuted node must refine like any
+    // other mesh
+    if(r.coin(0.4))
+    {
+      static const Geometry::PermutationStrategy strategies[] = {Geometry::PermutationStrategy::random, Geometry::PermutationStrategy::lexicographic,
+        Geometry::PermutationStrategy::colored, Geometry::PermutationStrategy::cuthill_mckee, Geometry::PermutationStrategy::cuthill_mckee_reversed,
+        Geometry::PermutationStrategy::geometric_cuthill_mckee, Geometry::PermutationStrategy::geometric_cuthill_mckee_reversed};
+      static const char* names[] = {"random", "lexicographic", "colored", "cuthill_mckee", "cuthill_mckee_reversed", "geometric_cuthill_mckee", "geometric_cuthill_mckee_reversed"};
+      const int si = int(r.below(7));
+      c.tag(std::string("perm:") + names[si]);
+      const std::string op = "create_permutation";
+      c.set_op(op);
+      if(!permute_node<Shape_>(c, *node, strategies[si], op)) return;
+    }
     refine_chain_node<Shape_>(c, std::move(node), Geometry::AdaptMode::none, cap, "refine_unique.none");
   }
 
